@@ -10,7 +10,7 @@ S->I: every enumerated behaviour is concretised (several concrete representative
       and pushed through the real worker.HandleMetrics of a test agent; the shard buckets are
       projected to (metric rows, ingestion-status rows) and compared with the specification."""
 import json, os, random, re
-from vlib import Infra, SPECS
+from vlib import Infra, SPECS, _beh_re
 
 ALL_REASONS = {"ok", "ErrMetricNotFound", "ErrMetricNameEncoding", "ErrMetricDisabled", "ErrMetricBuiltin",
                "ErrShardingFailed", "ErrMapTagNameEncoding", "ErrMapTagValueEncoding", "ErrMapTagValueCorrupted",
@@ -18,7 +18,7 @@ ALL_REASONS = {"ok", "ErrMetricNotFound", "ErrMetricNameEncoding", "ErrMetricDis
                "ErrTooBigCounter", "ErrNanInfValue", "ErrTooBigValue"}
 ALL_WARNINGS = {"OKCached", "WarnMapTagNameNotFound", "WarnMapTagNameFoundDraft", "WarnMapTagSetTwice",
                 "WarnMapInvalidRawTagValue", "WarnDeprecatedKeyName", "WarnTimestampClampedFuture"}
-BLOCK_OPS = {"seq": 2, "seq3": 3, "seqbig": 2}
+BLOCK_OPS = {"seq": 2, "seq3": 3, "seqbig": 2, "seqts": 2}
 
 
 GENERIC_TAGLISTS = ["none", "env", "unknown", "unkbadval", "badname", "top", "topmapped", "host", "hosttwice"]
@@ -28,7 +28,7 @@ METRIC_WEIGHTS = {"plain": 6, "pct": 3, "res5": 2, "dual": 3, "builtinok": 1, "d
 
 
 def beh_key(b):
-    return tuple((s["b"], s["j"], s["m"], s["c"], s["p"], s["t"], s["s"]) for s in b)
+    return tuple((s["m"], s["c"], s["p"], s["t"], s["s"]) for s in b)
 
 
 def class_sets():
@@ -74,7 +74,8 @@ def gen_scripts(seed, n, maxlen):
                 st = s0
             c = rnd.choice(cs["AllCounters"]) if rnd.random() < 0.5 else rnd.choice(["c0", "c1", "c2", "c3", "c6", "c5h"])
             sc.append((m, c, rnd.choice(cs["AllPayloads"]), t, st))
-        scripts.append(sc)
+        scripts.append(tuple(sc))
+    scripts = sorted(set(scripts))
     tla = "---- MODULE IngestRand ----\nEXTENDS Ingest\nRandScript == <<\n" + ",\n".join(
         "  << " + ", ".join('<<"%s", "%s", "%s", "%s", "%s">>' % e for e in sc) + " >>" for sc in scripts) + "\n>>\n====\n"
     return scripts, tla
@@ -90,89 +91,104 @@ def slim(b):
     return out
 
 
-def vacuity(ctx, behs):
+class Vacuity:
     """The enumeration must reach every branch of the table the property talks about."""
-    reasons, warns = set(), set()
-    n_acc = n_rej = n_scaled = n_absent = n_alt = n_zero = n_multi_merge = 0
-    for b in behs:
+
+    def __init__(self):
+        self.reasons, self.warns = set(), set()
+        self.n = {"accepted": 0, "rejected": 0, "counter_absent_with_values": 0, "counter_scales_values": 0,
+                  "rejected_with_several_true_reasons": 0, "accepted_without_contribution": 0, "multi_event_rows": 0}
+
+    def add(self, b):
+        n = self.n
         for s in b:
             d = s["dec"]
-            reasons.add(d["reason"])
+            self.reasons.add(d["reason"])
             if d["accept"]:
-                n_acc += 1
+                n["accepted"] += 1
                 for e in d["emit"]:
-                    warns.add(e["st"])
+                    self.warns.add(e["st"])
                 c = d["contrib"]
                 if c["present"] and c["hasVal"] and c["cexact"]:
                     if s["ev"]["ctr"]["n"] == 0:
-                        n_absent += 1
+                        n["counter_absent_with_values"] += 1
                     elif c["cnt"] != {"k": "fin", "n": len(s["ev"]["v"]) + len(s["ev"]["u"]), "d": 1}:
-                        n_scaled += 1
+                        n["counter_scales_values"] += 1
                 if not c["present"]:
-                    n_zero += 1
+                    n["accepted_without_contribution"] += 1
             else:
-                n_rej += 1
+                n["rejected"] += 1
                 if len(s["true"]) > 1:
-                    n_alt += 1
+                    n["rejected_with_several_true_reasons"] += 1
         if len(b) > 1 and any(len(r["agg"]["uniq"]) or r["agg"]["cnt"]["n"] > 6 for r in b[-1]["post"]["rows"]):
-            n_multi_merge += 1
-    missing = (ALL_REASONS - reasons) | (ALL_WARNINGS - warns)
-    stats = {"accepted": n_acc, "rejected": n_rej, "counter_absent_with_values": n_absent,
-             "counter_scales_values": n_scaled, "rejected_with_several_true_reasons": n_alt,
-             "accepted_without_contribution": n_zero, "multi_event_rows": n_multi_merge}
-    ctx.ev.set("table_coverage", stats)
-    if missing or not all([n_acc, n_rej, n_absent, n_scaled, n_alt]):
-        raise Infra("vacuous enumeration: unreached %s, coverage %s" % (sorted(missing), stats))
-    return stats
+            n["multi_event_rows"] += 1
+
+    def check(self, ctx):
+        missing = (ALL_REASONS - self.reasons) | (ALL_WARNINGS - self.warns)
+        ctx.ev.set("table_coverage", self.n)
+        need = ("accepted", "rejected", "counter_absent_with_values", "counter_scales_values",
+                "rejected_with_several_true_reasons", "multi_event_rows")
+        if missing or not all(self.n[k] for k in need):
+            raise Infra("vacuous enumeration: unreached %s, coverage %s" % (sorted(missing), self.n))
+
+
+def collect(res, sink, vac, want_len):
+    """Stream the BEH lines of a TLC run into the driver's input file: drop the repeated prints
+    (TLC evaluates the action constraint more than once per transition) and proper prefixes of
+    longer behaviours (every step is checked there)."""
+    seen, n = set(), 0
+    for line in res.out.splitlines():
+        if not line.startswith('<<"BEH"'):
+            continue
+        h = hash(line)
+        if h in seen:
+            continue
+        seen.add(h)
+        m = _beh_re.match(line)
+        if not m:
+            raise Infra("cannot parse BEH line: %s" % line[:200])
+        b = json.loads(json.loads(m.group(1)))
+        if len(b) != want_len(b):
+            continue
+        vac.add(b)
+        sink.write(json.dumps(slim(b), separators=(",", ":")) + "\n")
+        n += 1
+    res.out = ""
+    return n
 
 
 def run(ctx):
     th = ctx.thorough
     cfg = "Ingest_thorough.cfg" if th else "Ingest_quick.cfg"
-    mc = ctx.tlc("IngestMC", cfg, timeout=3300 if th else 1500, coverage=th,
-                 constants={"T0": 2000000043, "FutureSlots": 3, "TagShift": 100,
-                            "Blocks": "see " + cfg})
-    ctx.require_model_ok(mc, "Ingest invariants")
-    ctx.ev.set("exhaustive", True)
-    seen, behs = set(), []
-    for b in mc.behaviours:
-        if len(b) < BLOCK_OPS.get(b[0]["b"], 1):
-            continue   # a proper prefix of a longer exported behaviour (every step is checked there)
-        k = beh_key(b)
-        if k in seen:
-            continue   # TLC evaluates the action constraint more than once per transition
-        seen.add(k)
-        behs.append(b)
-    if not behs:
-        raise Infra("TLC exported no behaviours")
-    cov = vacuity(ctx, behs)
-    ctx.log("behaviours: %d (%s)" % (len(behs), cov))
-    # seeded random behaviours over the full class product, decided by TLC as well
-    scripts, tla = gen_scripts(ctx.seed, 4000 if th else 400, 4)
-    rmc = ctx.tlc("IngestRand", "Ingest_rand.cfg", timeout=3000 if th else 1200, files={"IngestRand.tla": tla},
-                  name="seeded random behaviours", constants={"scripts": len(scripts), "seed": ctx.seed})
-    ctx.require_model_ok(rmc, "Ingest invariants on random behaviours")
-    nrand = 0
-    for b in rmc.behaviours:
-        j = b[0]["j"]
-        if len(b) != len(scripts[j - 1]):
-            continue
-        k = beh_key(b)
-        if k in seen:
-            continue
-        seen.add(k)
-        behs.append(b)
-        nrand += 1
-    if nrand != len(scripts):
-        raise Infra("TLC exported %d of %d scripted behaviours" % (nrand, len(scripts)))
+    inp = os.path.join(ctx.tmp, "c12_behaviours.ndjson")
+    vac = Vacuity()
+    with open(inp, "w") as sink:
+        mc = ctx.tlc("IngestMC", cfg, timeout=3300 if th else 1500, keep_beh=False, heap="6g" if th else "3g",
+                     constants={"T0": 2000000043, "FutureSlots": 3, "TagShift": 100, "Blocks": "see " + cfg})
+        ctx.require_model_ok(mc, "Ingest invariants")
+        ctx.ev.set("exhaustive", True)
+        ntab = collect(mc, sink, vac, lambda b: BLOCK_OPS.get(b[0]["b"], 1))
+        if not ntab:
+            raise Infra("TLC exported no behaviours")
+        vac.check(ctx)
+        ctx.log("enumerated behaviours: %d (%s)" % (ntab, vac.n))
+        # seeded random behaviours over the full class product, decided by TLC as well
+        scripts, tla = gen_scripts(ctx.seed, 3000 if th else 300, 4)
+        rmc = ctx.tlc("IngestRand", "Ingest_rand.cfg", timeout=3000 if th else 1200, files={"IngestRand.tla": tla},
+                      keep_beh=False, heap="4g" if th else "3g", name="seeded random behaviours", constants={"scripts": len(scripts), "seed": ctx.seed})
+        ctx.require_model_ok(rmc, "Ingest invariants on random behaviours")
+        whole = set(scripts)
+        nrand = collect(rmc, sink, vac, lambda b: len(b) if beh_key(b) in whole else -1)
+        if nrand != len(scripts):
+            raise Infra("TLC exported %d of %d scripted behaviours" % (nrand, len(scripts)))
+    ctx.ev.set("enumerated_behaviours", ntab)
     ctx.ev.set("random_behaviours", nrand)
-    inp = [slim(b) for b in behs]
-    total = 0
+    nbeh = ntab + nrand
     for legacy in (0, 1):
         stage = "legacy-apply-values" if legacy else "apply-values"
         res, out, rc = ctx.go_test("cmd/statshouse", "TestVerifC12Ingest", inp=inp,
                                    env={"VERIF_T0": 2000000043, "VERIF_C12_LEGACY": legacy,
-                                        "VERIF_C12_VARIANTS": 4 if th else 3}, timeout=2400)
+                                        "VERIF_C12_VARIANTS": 4 if th else 3}, timeout=3000)
         res = ctx.need_result(res, out, rc, "TestVerifC12Ingest")
         c = res.get("consts", {})
         want = {"TagIDShift": 100, "MaxTags": 48, "StringTopTagIndexV3": 47, "HostTagIndex": -2, "MaxStringLen": 128}
@@ -188,18 +204,17 @@ def run(ctx):
             raise Infra("driver failed without mismatches (rc=%s), see %s" % (rc, p))
         n = ctx.replay_s2i_mismatches(res, stage)
         ok = res["replayed"] if n == 0 else 0
-        total += ok
+        cnt = res.get("counters", {})
         ctx.ev.add_impl("worker.HandleMetrics on TLC behaviours (%s)" % stage, ok, steps=res["steps"],
-                        behaviours=len(inp), mismatches=res.get("counters", {}).get("mismatches_total", 0),
-                        notes=res.get("counters", {}).get("notes", 0),
-                        reason_differs_but_true=res.get("counters", {}).get("reason_differs_but_true", 0),
-                        warn_status_differs=res.get("counters", {}).get("warn_status_differs", 0))
+                        behaviours=nbeh, mismatches=cnt.get("mismatches_total", 0), notes=cnt.get("notes", 0),
+                        reason_differs_but_true=cnt.get("reason_differs_but_true", 0),
+                        warn_status_differs=cnt.get("warn_status_differs", 0))
         for s in res.get("samples", [])[:3]:
             ctx.ev.sample(s)
-        for nt in res.get("notes", [])[:10]:
+        for nt in res.get("notes", [])[:6]:
             ctx.log("note:", nt)
     ctx.ev.assume("single-threaded driver; the test agent is never Run, its shard clock is fixed at T0 = 2000000043 "
-                  "(the wall clock must be earlier), 5 shards, empty disk cache, mappings cache holding two strings")
+                  "(the wall clock must be earlier), 5 shards, no disk cache, mappings cache holding two strings")
     ctx.ev.assume("an event's classes are concretised with 1-3 representatives each (values additionally scaled by a unit "
                   "in single-event behaviours); aggregates are compared with relative tolerance 1e-9")
     ctx.ev.assume("events whose counter or a histogram weight is exactly MaxFloat32: only row existence, min and max are compared")
